@@ -88,7 +88,10 @@ Options:
 	}
 	if err := fs.Parse(os.Args[1:]); err != nil {
 		// flag will have printed out an error already.
-		return
+		if err == _flag.ErrHelp {
+			return
+		}
+		os.Exit(2)
 	}
 	args.Args = fs.Args()
 	if args.Help && len(args.Args) == 0 {
